@@ -248,7 +248,7 @@ class Generator:
         if kind == "shift":
             a = ra(rng.choice(ints))
             ar = self.total_order(pt)
-            if a is None or ar is None:
+            if a is None or not ar:
                 return None
             rec = {"e": "shift", "a": a, "n": rng.choice([1, 1, 2, -1]), "ar": ar}
             if rng.random() < 0.3:
@@ -258,7 +258,7 @@ class Generator:
             return rec
         if kind == "rown":
             ar = self.total_order(pt)
-            if ar is None:
+            if not ar:
                 return None
             rec = {"e": "rown", "ar": ar}
             if rng.random() < 0.3:
